@@ -14,6 +14,8 @@ struct HbProdRun : NodeEnv {
     HbProdRun(const Plan &p, Cov &c, bool vb) : NodeEnv(p, c, vb) {}
     uint32_t tk(uint32_t ms) { return (uint32_t)((uint64_t)ms * freq / 1000); }
     static void appCb(void *) {}
+    static HbProdRun *self; int cbHb = 0; bool cbFired = false;
+    static void csdoDone(CO_CSDO *, uint16_t, uint8_t, uint32_t) { HbProdRun *g = self; if (!g || !W) return; g->cbFired = true; (void)CODictWrWord(&W->S().node->Dict, CO_DEV(0x1017, 0), (uint16_t)g->cbHb); (void)CONodeGetErr(W->S().node); }
     void arm(uint32_t ms) { uint32_t t = tk(ms); if (ms == 0 || t == 0) { hbOn = false; return; } hbOn = true; hbPeriod = t; hbNext = now() + t; }
     void build() {
         nodeId = (uint8_t)plan.c("nodeid", 1); if (nodeId < 1 || nodeId > 100) nodeId = 1; freq = (uint32_t)plan.c("freq", 1000);
@@ -25,6 +27,7 @@ struct HbProdRun : NodeEnv {
         add_tpdo(specs, 0, 0x40000180u + nodeId, 254, (uint16_t)plan.c("inh0", 0), (uint16_t)plan.c("ev0", 20), {CO_LINK(0x2100, 1, 8)}, true);
         add_tpdo(specs, 1, 0x40000280u + nodeId, 255, (uint16_t)plan.c("inh1", 50), (uint16_t)plan.c("ev1", 0), {CO_LINK(0x2100, 2, 16)}, true);
         add_u8(specs, 0x2100, 0, CO_OBJ_D___R_, 2); add_u8(specs, 0x2100, 1, CO_OBJ___APRW, 1); add_u16(specs, 0x2100, 2, CO_OBJ___APRW, 2);
+        add_u8(specs, 0x1280, 0, CO_OBJ_D___R_, 3); add_u32(specs, 0x1280, 1, CO_OBJ_D___R_, 0x600); add_u32(specs, 0x1280, 2, CO_OBJ_D___R_, 0x580); add_u8(specs, 0x1280, 3, CO_OBJ_D___R_, 120);   // an SDO client (server node 120 never answers): one more timer user
         NodeCfg cfg; cfg.nodeId = nodeId; cfg.freq = freq; cfg.tmrNum = 32;
         w.build(0, cfg, specs); w.init(0);
         arm((uint32_t)plan.c("hb", 10));
@@ -69,6 +72,13 @@ struct HbProdRun : NodeEnv {
             cov.hit("other-user-reconfigured"); }
         else if (k == "trig") { w.cur = 0; if (o.arg(0) & 1) { uint8_t v8 = (uint8_t)o.arg(1); (void)CODictWrByte(&N()->Dict, CO_DEV(0x2100, 1), v8); } else COTPdoTrigPdo(N()->TPdo, (uint16_t)(o.arg(1) & 1)); }
         else if (k == "apptmr") { w.cur = 0; if (o.arg(0)) { int16_t id = COTmrCreate(&N()->Tmr, (uint32_t)o.arg(1), (uint32_t)o.arg(2), appCb, nullptr); if (id >= 0 && o.arg(2) != 0) appTimers.push_back(id); /* a one-shot handle dies with its expiry and is never deleted by the application */ } else if (!appTimers.empty()) { size_t i = (size_t)o.arg(1) % appTimers.size(); (void)COTmrDelete(&N()->Tmr, (int16_t)appTimers[i]); appTimers.erase(appTimers.begin() + (long)i); } }
+        else if (k == "csdoto") {   // a client transfer to a silent server times out; the application's completion callback rewrites the heartbeat producer time (1017h) from inside it
+            uint32_t tmo = (uint32_t)o.arg(0) % 40 + 2, nhb = (uint32_t)o.arg(1); if (m != M_PREOP && m != M_OP) return; if (tk(tmo) == 0 || (nhb && tk(nhb) == 0)) return; if (hbOn && hbNext <= now() + tk(tmo) && (now() + tk(tmo) - hbNext) % hbPeriod == 0) return;   // a heartbeat due on the very tick of the time-out: order within the tick is free
+            w.cur = 0; CO_CSDO *cs = COCSdoFind(N(), 0); if (!cs || cs->State != CO_CSDO_STATE_IDLE) return; self = this; cbHb = (int)nhb; cbFired = false; static uint8_t buf[4];
+            if (COCSdoRequestUpload(cs, CO_DEV(0x2000, 1), buf, 4, csdoDone, tmo) != CO_ERR_NONE) { (void)CONodeGetErr(N()); return; }
+            w.tick(0, tk(tmo)); safety(); checkHb(mk, t0, now(), 0, "time-out of the SDO client"); if (!v.ok) return;
+            if (!cbFired) { fail("hb/harness-csdo-timeout", "the SDO client's time-out callback did not run when due"); return; }
+            cov.hit(hbOn ? "1017-written-from-the-csdo-timeout-callback-while-running" : "1017-written-from-the-csdo-timeout-callback-while-off"); nontrivial = true; arm(nhb); if (w.raw(0, 0x1017, 0) != nhb) fail("hb/stored-value", "1017h holds " + std::to_string(w.raw(0, 0x1017, 0)) + " after the callback wrote " + std::to_string(nhb)); return; }
         else if (k == "peerhb") { if (m == M_INVALID) return; deliver(Frame(0x700u + consNode[o.arg(0) & 1], 1, {(uint8_t)o.arg(1)})); }
         else if (k == "sendfail") { S().sendFail = (int)o.arg(0); cov.hit("F5-send-failure-armed"); }
         safety();
@@ -106,11 +116,13 @@ Plan gen_hbprod(Rng &r, bool thorough) {
         else if (c < 15) p.ops.push_back(Op("cfg", {(int64_t)r.below(8), r.chance(1, 4) ? 0 : ms({1, 2, 3, 5, 10, 20})}));
         else if (c < 17) p.ops.push_back(Op("trig", {(int64_t)r.below(2), (int64_t)r.below(256)}));
         else if (c == 17) p.ops.push_back(Op("apptmr", {(int64_t)r.chance(2, 3), r.range(0, 20), r.chance(1, 2) ? 0 : r.range(1, 20)}));
+        else if (c == 18 && r.chance(1, 2)) p.ops.push_back(Op("csdoto", {(int64_t)r.below(40), r.chance(1, 5) ? 0 : ms({1, 2, 3, 5, 10, 20, 50})}));
         else if (c == 18) p.ops.push_back(Op("peerhb", {(int64_t)r.below(2), r.pick<int64_t>({5, 127, 4, 0})}));
         else p.ops.push_back(r.chance(1, 3) ? Op("sendfail", {r.range(1, 3)}) : Op("nmt", {1, 1}));
     }
     return p;
 }
+HbProdRun *HbProdRun::self = nullptr;
 Reg r10({"hbprod", "C10", gen_hbprod, [](const Plan &p, Cov &c, bool vb) { HbProdRun x(p, c, vb); return x.run(); }, nullptr, nullptr});
 
 // =====================================================================================================================
